@@ -262,6 +262,7 @@ func isParamCell(p *Prog, al *ssa.Alloc) bool {
 
 func runEngineMP(p *Prog, o *obls) {
 	p3HighWater(p, o)
+	p2RepairLoop(p, o)
 	// ---- M1 ----
 	for _, es := range encoderSpecs {
 		if p.Fixture != strings.HasPrefix(es.fn, "fixtures/") {
@@ -1631,12 +1632,28 @@ func runEngineS(p *Prog, o *obls) {
 			s6CoAssign(p, o, fn, ss)
 			s7OwnKey(p, o, fn, ss)
 			// ---- S2: loops over the packets of a compound are exhaustive
+			nBlk := 0
 			for _, l := range findRangeLoops(fn) {
 				st, ok := l.Slice.Type().Underlying().(*types.Slice)
 				if !ok {
 					continue
 				}
 				ek := types.TypeString(st.Elem(), nil)
+				// ---- S2 (blocks of one report): a report can name the same source in several blocks (an RR assembled by a
+				// mixer, a DLRR with sub-blocks from several receivers); "the most recent matching report" is the last
+				// of them, so the loop over a report's blocks is exhaustive as well — a `break` after the first match
+				// freezes the figures at the first block and books one round-trip measurement instead of one per block
+				if (strings.HasPrefix(ek, "github.com/pion/rtcp.") || strings.HasPrefix(ek, "fixtures/fx.sBlock")) && ek != "github.com/pion/rtcp.Packet" {
+					if _, isStruct := st.Elem().Underlying().(*types.Struct); isStruct {
+						nBlk++
+						kb := fmt.Sprintf("%s:block-loop#%d", funcKey(fn), nBlk)
+						if len(l.Exits) > 0 {
+							o.bad("S2", kb, p.Pos(fn.Pos()), fmt.Sprintf("the loop over the blocks of one report (%s) can be left early (edge to the block at %s): a later block about the same source is never applied", ek, p.instrPos(l.Exits[0].To.Instrs[0])))
+						} else {
+							o.ok("S2", kb, p.Pos(fn.Pos()), "the loop over the report's blocks ("+ek+") has no early exit")
+						}
+					}
+				}
 				if ek != "github.com/pion/rtcp.Packet" && ek != "fixtures/fx.sPkt" {
 					continue
 				}
@@ -2585,4 +2602,47 @@ func (p *Prog) writtenOutsideConstruction(fk string) bool {
 		}
 	}
 	return p.wocCache[fk]
+}
+
+// p2RepairLoop (rule P2, every repair packet is attempted): in a per-packet writer closure, a range loop over a slice
+// of rtp.Packet (the repair packets the encoder produced for a finished batch) that writes each element downstream has
+// no early exit. The batch is encoded — buffer reset, FEC sequence numbers drawn — before anything is written: a loop
+// that gives up at the first failed write drops repair packets that protect other media packets, and the next batch
+// continues the FEC sequence after a hole.
+func p2RepairLoop(p *Prog, o *obls) {
+	cl, _ := p.PktClosures()
+	n := 0
+	for _, c := range cl {
+		fn := c.Fn
+		if fn.Blocks == nil {
+			continue
+		}
+		k := 0
+		for _, l := range findRangeLoops(fn) {
+			st, ok := l.Slice.Type().Underlying().(*types.Slice)
+			if !ok || !strings.HasSuffix(types.TypeString(st.Elem(), nil), "pion/rtp.Packet") {
+				continue
+			}
+			writes := false
+			for b := range l.Blocks {
+				for _, in := range b.Instrs {
+					if ci, ok := in.(ssa.CallInstruction); ok && ci.Common().IsInvoke() && ci.Common().Method.Name() == "Write" {
+						writes = true
+					}
+				}
+			}
+			if !writes {
+				continue
+			}
+			n++
+			k++
+			key := fmt.Sprintf("%s:repair-loop#%d", funcKey(fn), k)
+			if len(l.Exits) > 0 {
+				o.bad("P2", key, p.Pos(fn.Pos()), fmt.Sprintf("the loop that writes the repair packets of a batch can be left early (edge to the block at %s): the remaining repair packets, which protect other media packets, are never sent and the FEC sequence continues after a hole", p.instrPos(l.Exits[0].To.Instrs[0])))
+			} else {
+				o.ok("P2", key, p.Pos(fn.Pos()), "the loop that writes the batch's repair packets has no early exit")
+			}
+		}
+	}
+	o.ok("P2", "repair-loops-inspected", "-", fmt.Sprintf("%d loop(s) over rtp.Packet slices that write downstream in per-packet closures", n))
 }
